@@ -426,3 +426,109 @@ def trusted(pid):
             "string grammar of the key safe (_parse_key_locator, _split_list, _parse_crypto_dict, unquote, base64) and _parse_dictionary: exercised by the bounded block only (string VCs undecided, DESIGN A.13)",
             "VMX.encrypted (a property) is read as a field; KeySafe.unseal_with_phrase's locator loop is covered by the bounded block (decoy pairs) only",
             "environment: HAS_PYCRYPTODOME, not _pystandalone"]
+
+
+# ------------------------------------------------------------------------------------------------ KeySafe.unseal_with_phrase (locator loop)
+class UnsealModel(Model):
+    """the body of `for locator in self.locators` for an arbitrary locator"""
+
+    def __init__(self):
+        super().__init__()
+        self.hp = z3.Bool("locator.has_phrase()")
+        self.oks = []
+        self.DATA, self.KEYB = fresh_bytes_("pair_plain"), fresh_bytes_("key_bytes")
+        self.methods[("loc", "has_phrase")] = lambda eng, st, args, node: BoolV(self.hp)
+        self.methods[("loc", "unlock_with_phrase")] = self.rec("unlock", lambda: self.DATA, "ValueError")
+        self.fields["loc.mac"] = ObjV("loc.mac")
+        self.global_calls["_parse_crypto_dict"] = self.rec("_parse_crypto_dict", lambda: ObjV("cdict"), "ValueError")
+        self.items["cdict"] = self.cdict_get
+        self.globals["base64"] = ObjV("base64")
+        self.methods[("base64", "b64decode")] = self.rec("b64decode", lambda: self.KEYB, "binascii.Error")
+        for p in ("loc", "cdict", "loc.mac"):
+            self.truthy[p] = z3.BoolVal(True)
+
+    def rec(self, name, result, exc):
+        def h(eng, st, args, node, **kw):
+            st.ghost[name] = (tuple(args), dict(kw))
+            st.ghost[name + "#"] = st.ghost.get(name + "#", 0) + 1
+            ok = fresh("ok", B)
+            st.ghost["oks"] = st.ghost.get("oks", ()) + (ok,)
+            eng.may_raise(exc, st, ok, node)
+            return result()
+
+        return h
+
+    def cdict_get(self, eng, st, idx, node):
+        if not isinstance(idx, StrV):
+            raise Unsupported("crypto_dict[..] with a non-constant key")
+        ok = z3.Bool(f"has[{idx.s}]")
+        st.ghost["oks"] = st.ghost.get("oks", ()) + (ok,)
+        eng.may_raise("KeyError", st, ok, node)
+        return ObjV(f"cdict[{idx.s}]")
+
+
+def extra_checks(rep, pid, ledger, known):
+    """KeySafe.unseal_with_phrase: executed for an arbitrary element of self.locators, the loop body (a) returns -- from inside the loop,
+    i.e. at the *first* locator that unlocks -- (base64(crypto_dict['key']), that locator's mac) whenever the locator has a phrase and
+    nothing raised, (b) moves on to the next locator only if it has no phrase or a ValueError was swallowed; after the loop the
+    function raises."""
+    import ast
+
+    from pyvc.engine import Engine, State, find_function
+
+    name = "vmx:KeySafe.unseal_with_phrase/locator_loop"
+    why = []
+    try:
+        node, _ = find_function(rep.repo, FILE, "KeySafe.unseal_with_phrase")
+        loops = [n for n in node.body if isinstance(n, ast.For)]
+        if len(loops) != 1 or ast.unparse(loops[0].iter) != "self.locators" or not isinstance(loops[0].target, ast.Name):
+            raise Unsupported("expected exactly one top-level `for <name> in self.locators`")
+        loop = loops[0]
+        if any(isinstance(n, ast.Return) for s_ in node.body if s_ is not loop for n in ast.walk(s_)):
+            why.append("a return statement outside the locator loop (the result is no longer tied to the locator that unlocked)")
+        if not isinstance(node.body[-1], ast.Raise):
+            why.append("the function does not end by raising when no locator unlocked")
+        m = UnsealModel()
+        eng = Engine(m, "vmx:KeySafe.unseal_with_phrase", node, allow_exc=("KeyError", "Exception", "TypeError"))
+        st = State(env={"self": ObjV("self"), "passphrase": ObjV("passphrase"), loop.target.id: ObjV("loc")}, hyps=[], filepos={})
+        outs = eng.run(loop.body, st)
+        n_ret = 0
+
+        def sat(hyps):
+            s = z3.Solver()
+            s.add(*hyps)
+            return s.check() != z3.unsat
+
+        for e, out in outs:
+            if isinstance(out, tuple) and out[0] == "return":
+                n_ret += 1
+                rv = out[1]
+                g = e.ghost
+                text = g.get("_parse_crypto_dict", ((None,),))[0][0]
+                ok = (isinstance(rv, TupleV) and len(rv.items) == 2 and rv.items[0] is m.KEYB and isinstance(rv.items[1], ObjV) and rv.items[1].path == "loc.mac"
+                      and g.get("unlock#") == 1 and len(g["unlock"][0]) == 1 and isinstance(g["unlock"][0][0], ObjV) and g["unlock"][0][0].path == "passphrase"
+                      and isinstance(text, OpaqueV) and text.memo.get(("decoded_from",)) is m.DATA
+                      and g.get("b64decode#") == 1 and isinstance(g["b64decode"][0][0], ObjV) and g["b64decode"][0][0].path == "cdict[key]")
+                if not ok:
+                    why.append("a return path does not return (b64decode(_parse_crypto_dict(unlock_with_phrase(passphrase).decode())['key']), locator.mac) of the current locator")
+                if sat(list(e.hyps) + [z3.Not(m.hp)]):
+                    why.append("a locator without a phrase can produce the result")
+            elif out in (None, "continue"):
+                oks = list(e.ghost.get("oks", ()))
+                # moving on to the next locator although this one has a phrase and nothing raised
+                if sat(list(e.hyps) + [m.hp] + oks):
+                    why.append("the loop moves on to the next locator although the current one has a phrase and nothing raised (no return at the first success)")
+        if n_ret == 0:
+            why.append("the loop body never returns")
+        for exc_state, exc, _n in eng.raised:
+            pass  # other exceptions propagate: unlocking fails with an error
+    except Unsupported as e:
+        rep.unsupported.append(f"{name}: unsupported({e})")
+        return
+    ok = not why
+    rep.functions.append({"function": f"{FILE}:KeySafe.unseal_with_phrase (locator loop body + function shape)", "contract": "first locator that unlocks decides (key, mac); ValueError only moves on; raises when none", "props": ["C15"]})
+    rep.obligations[name] = {"verdict": "discharged" if ok else "undischarged", "atoms": len(outs) if not why else 1, "ms": 0, "backends": {"z3-5.1"}, "stages": set(), "line": node.lineno, "props": ["C15"]}
+    if not ok:
+        r = replay(rep, name, None)
+        p = driver.write_replay(pid, name, {"property": pid, "obligation": name, "verifier_output": "; ".join(sorted(set(why))), **({"replayed": r["record"]} if r else {})})
+        rep.violations.append((p, "; ".join(sorted(set(why))) + (f" -- replayed: {r['text']}" if r else ""), r is None))
